@@ -20,7 +20,7 @@ def pyvalue(v):
     if k == "npint":
         return np.int64(v[1])
     if k == "float":
-        return 2.5
+        return 2.5 if len(v) < 2 else float(v[1])      # ["float", z]: a float that happens to hold an integer
     if k == "str":
         return "3"
     if k == "none":
